@@ -314,7 +314,7 @@ MANIFEST = {
                 technique="TLA+ spec + TLC exhaustive check; step-by-step replay of TLC behaviours on the real operator", design="5/C04"),
     "C06": dict(text=_common + "C06 oracles: main queue after bootstrap equals the specified order (onStartup by order then name, Enable* per hook), "
                                "Synchronization tasks at the head of main in binding order, no execution for executeHookOnSynchronization:false / v0.",
-                note="4 hook configurations (equal onStartup orders, groups, snapshot-only bindings, v0 hook, several queues).",
+                note="11 hook configurations in spec/Operator/configs.json (equal onStartup orders, hook paths in sub-directories, groups, groups led by a binding without Synchronization, snapshot-only bindings, v0 hook, named queues with and without groups); each check replays the ones that matter for it.",
                 technique="TLA+ spec + TLC exhaustive check; step-by-step replay of TLC behaviours on the real operator", design="5/C06"),
     "C07": dict(text="TLC enumerates every queue layout within the bounds (spec/Operator/Combine.tla, reference semantics in CombineOps.tla) and each layout is "
                      "replayed through the exported CombineBindingContextForHook and the internal twin: returned contexts (origin-tagged), monitor ids and "
